@@ -12,6 +12,7 @@ import (
 	"net"
 	"os"
 	"runtime"
+	"runtime/debug"
 	"strings"
 	"sync"
 	"sync/atomic"
@@ -569,4 +570,14 @@ func DialTCP(addr string, timeout time.Duration) (*net.TCPConn, error) {
 		}
 	}
 	return nil, lastErr
+}
+
+// NoGC switches the garbage collector off until the returned function is called. A socket the code under test
+// forgot to close is otherwise closed by its finalizer at the next collection, which makes "closed in time" and
+// "nothing leaked" depend on the collector instead of on the code. Use for the span of one (small) case.
+func NoGC() func() {
+	old := debug.SetGCPercent(-1)
+	return func() {
+		debug.SetGCPercent(old)
+	}
 }
